@@ -109,6 +109,33 @@ def loops():
         return [p.local(["n"], [p.num(0)]), p.localfunction("f", f), p.emit([p.str("start"), p.call(p.id("f"), [])]), p.while_(p.true(), p.block(tick(p)))]
     mk("host_cancels_in_lua_callee", host_cancels_in_callee)
 
+    def host_body_callback(p):      # the body of the coroutine is a host function that calls back into a looping Lua function
+        spin = p.func([], p.block([p.while_(p.true(), p.block(tick(p)))]))
+        return [p.local(["n"], [p.num(0)]), p.emit([p.str("start")]), p.emit([p.call(p.call(_co(p, "wrap"), [p.id("pcall")]), [spin])]), p.emit([p.str("unreachable")])]
+    mk("host_function_body_calls_back", host_body_callback)
+
+    def host_body_gcall(p):
+        spin = p.func([], p.block([p.while_(p.true(), p.block(tick(p)))]))
+        return [p.local(["n"], [p.num(0)]), p.local(["c"], [p.call(_co(p, "create"), [p.id("gcall")])]), p.emit([p.call(_co(p, "resume"), [p.id("c"), spin])]),
+                p.while_(p.true(), p.block(tick(p)))]
+    mk("host_function_body_gcall", host_body_gcall)
+
+    # loops whose body is empty: every iteration still is a dispatch
+    mk("empty_numeric_for", lambda p: [p.emit([p.str("start")]), p.fornum("i", p.num(1), p.num(1000000000), 0, p.block([])), p.emit([p.str("unreachable")])])
+    mk("empty_numeric_for_down", lambda p: [p.emit([p.str("start")]), p.fornum("i", p.num(0), p.num(-1000000000), p.num(-1), p.block([])), p.emit([p.str("unreachable")])])
+
+    def empty_for_in_pcall_retry(p):
+        f = p.func([], p.block([p.fornum("i", p.num(1), p.num(1000000000), 0, p.block([]))]))
+        return [p.local(["n"], [p.num(0)]), p.while_(p.true(), p.block([p.emit([p.str("caught"), p.call(p.id("pcall"), [f])])] + tick(p)))]
+    mk("empty_for_inside_pcall_retry", empty_for_in_pcall_retry)
+
+    def empty_for_in_coroutine(p):
+        body = p.func([], p.block([p.fornum("i", p.num(1), p.num(1000000000), 0, p.block([]))]))
+        return [p.emit([p.str("start")]), p.emit([p.call(_co(p, "resume"), [p.call(_co(p, "create"), [body])])]), p.emit([p.str("unreachable")])]
+    mk("empty_for_inside_coroutine", empty_for_in_coroutine)
+    mk("empty_while", lambda p: [p.emit([p.str("start")]), p.while_(p.true(), p.block([])), p.emit([p.str("unreachable")])])
+    mk("empty_repeat", lambda p: [p.emit([p.str("start")]), p.repeat(p.block([]), p.false()), p.emit([p.str("unreachable")])])
+
     def terminating(p):
         return [p.local(["n"], [p.num(0)]), p.fornum("i", p.num(1), p.num(12), 0, p.block(tick(p, every=2))),
                 p.emit([p.str("done"), p.call(p.id("pcall"), [p.func([], p.block([p.ret([p.num(1)])]))])]), p.ret([p.id("n")])]
